@@ -32,7 +32,8 @@ Inductive expr :=
 | EExt (bits : Z) (a : expr)           (* EXT8/16/32 *)
 | EUext (bits : Z) (a : expr)          (* UEXT8/16/32 *)
 | EShl (a : expr) (k : Z) | EShr (a : expr) (k : Z) | ESar (a : expr) (k : Z)
-| EFlt (bits : Z).                     (* fmov/dmov/ldmov r, const ; ret r *)
+| EFlt (bits : Z)                      (* fmov/dmov/ldmov r, const ; ret r *)
+| ELoad (a : expr).                    (* mov r, i64:(a): makes the function unusable as an expression *)
 
 Inductive okind :=
 | OImport                              (* address supplied by the link environment *)
@@ -46,6 +47,7 @@ Inductive item :=
 | ILref (nm : option nat) (l1 : nat) (l2 : option nat) (disp : Z)
 | IExpr (nm : option nat) (fn : nat)
 | IFunc (rt : ty) (body : expr)
+| IGFunc                               (* the function that contains the labels lrefs refer to *)
 | IOther (k : okind).
 
 Definition is_data_like (it : item) : bool :=
@@ -167,6 +169,7 @@ Section WithAddresses.
     | EShr a k => lshr 64 (eval all a) k
     | ESar a k => u64 (ashr 64 (eval all a) k)
     | EFlt bits => bits
+    | ELoad _ => 0                     (* never evaluated at link: see load_check *)
     end.
 
   (* a byte of memory after load+link: Some b, or None where nothing is specified (label
@@ -194,3 +197,34 @@ Section WithAddresses.
 
   Definition slice {A} (l : list A) (off len : nat) : list A := firstn len (skipn off l).
 End WithAddresses.
+
+(* ---------------------------------------------------------------- load-time checks *)
+
+(* MIR_finish_func's expr_p: no call and no memory operand *)
+Fixpoint expr_ok (e : expr) : bool :=
+  match e with
+  | EConst _ | EAddr _ | EFlt _ => true
+  | EAdd a b | ESub a b | EMul a b | EAnd a b | EOr a b | EXor a b => expr_ok a && expr_ok b
+  | ENeg a | EExt _ a | EUext _ a | EShl a _ | EShr a _ | ESar a _ => expr_ok a
+  | ELoad _ => false
+  end.
+
+Inductive lerr := EBinaryIO | EWrongLref.
+
+(* load_bss_data_section rejects an expr item whose function is not an expression function
+   (binary_io_error, raised in the size pass, i.e. in item order before anything later is placed);
+   link_module_lrefs, after the item loop, rejects an lref whose label is in no function of the
+   module (wrong_lref_error) *)
+Definition expr_item_ok (all : list item) (it : item) : bool :=
+  match it with
+  | IExpr _ fn => match nth_error all fn with Some (IFunc _ body) => expr_ok body | _ => false end
+  | _ => true
+  end.
+
+Definition is_lref (it : item) : bool := match it with ILref _ _ _ _ => true | _ => false end.
+Definition is_gfunc (it : item) : bool := match it with IGFunc => true | _ => false end.
+
+Definition load_check (all : list item) : option lerr :=
+  if negb (forallb (expr_item_ok all) all) then Some EBinaryIO
+  else if existsb is_lref all && negb (existsb is_gfunc all) then Some EWrongLref
+  else None.
